@@ -366,6 +366,9 @@ def enumerate_cases(tier: str, seed: int) -> list[dict[str, Any]]:
     for where in ("top", "loop_body", "cond_branch", "function_body", "nested_function_body", "function_body_retrace_only"):
         for dp in (False, True):
             cases.append({"key": f"trace_raise:{where}:dp={int(dp)}", "prog": None, "raiser": where, "dp": dp, "plan": {"kind": "none"}, "cost": 1.0})
+    for r in range(2 if tier == "quick" else 6):
+        for what in ("class_call", "module_function"):
+            cases.append({"key": f"rebind:{what}#{r}", "prog": None, "rebind": what, "plan": {"kind": "none"}, "cost": 1.0})
     # calls abandoned by something that is not an Exception (interrupt, exit, cancellation)
     for where in ("top", "loop_body", "cond_branch"):
         for exc in ("base", "keyboard_interrupt", "system_exit", "generator_exit"):
@@ -473,6 +476,73 @@ def _monitors(case_key: str, prog: str | None, rec: dict[str, Any]) -> None:
         bad("behaviour", "probe", "jit_probe", f"a jit probe raises {type(exc).__name__}: {str(exc)[:150]}")
 
 
+def _rebind_case(case: dict[str, Any], rec: dict[str, Any]) -> dict[str, Any]:
+    """History: export, the user re-binds an attribute jax2onnx patches while tracing (a decorated class's
+    __call__, a module-level decorated function), export again.  After the second call the attribute must
+    resolve to what the user bound, eager results must be the ones from right before the call, and the
+    exported model must compute the re-bound version."""
+    import inspect
+    import types
+
+    import jax
+    import jax.numpy as jnp
+    from flax import nnx
+    from jax2onnx.user_interface import to_onnx
+
+    from vlib import fnmods, ortrun
+
+    P = _programs()
+    x = np.linspace(-1.0, 1.0, 9, dtype=np.float32).reshape(3, 3)
+    what = case["rebind"]
+
+    def bad(kind: str, text: str) -> None:
+        rec["violations"].append({"family": "user_rebinding", "kind": kind, "cls": what, "text": f"after {case['key']}: {text}"})
+
+    if what == "class_call":
+        holder, attr = fnmods.C13OverridingLinear, "__call__"
+        model = P["overriding_call_linear"]["fn"]
+
+        def rebound(self, v):
+            return nnx.Linear.__call__(self, v) * 3.0 + 1.0
+    else:
+        holder, attr = fnmods, "c13_leaf"
+        model = fnmods.c13_outer
+        src = inspect.getattr_static(fnmods, "c13_leaf")
+        target = getattr(src, "__wrapped__", None) or getattr(src, "_original", None)
+
+        rebound_plain = types.FunctionType(fnmods._c13_leaf_v2.__code__, fnmods.__dict__, "c13_leaf")
+        rebound_plain.__module__ = "vlib.fnmods"
+        rebound_plain.__qualname__ = "c13_leaf"
+        from jax2onnx import onnx_function
+
+        rebound = onnx_function(rebound_plain)
+    original = inspect.getattr_static(holder, attr)
+    try:
+        to_onnx(model, [("B", 3)])  # first export with the original binding
+        setattr(holder, attr, rebound)
+        before_obj = inspect.getattr_static(holder, attr)
+        eager_before = np.asarray(model(jnp.asarray(x)))
+        m2 = to_onnx(model, [("B", 3)])
+        rec["evals"] = 2
+        after_obj = inspect.getattr_static(holder, attr)
+        if after_obj is not before_obj:
+            bad("attribute_rebound_by_conversion", f"{getattr(holder, '__name__', holder)}.{attr} resolved to {before_obj!r} before the call and to {after_obj!r} after it")
+        eager_after = np.asarray(model(jnp.asarray(x)))
+        if not np.allclose(eager_after, eager_before, rtol=1e-6, atol=1e-6):
+            bad("eager_changed", "the eager result of the callable changed across the conversion")
+        got = np.asarray(ortrun.run_model(m2, [x])[0])
+        if not np.allclose(got, eager_before, rtol=1e-4, atol=1e-5):
+            bad("exported_stale_definition", "the exported model does not compute the re-bound definition that eager JAX runs")
+        rec["nontrivial"].append(case["key"])
+        rec["obs"]["rebinding_histories"] = 1
+    finally:
+        setattr(holder, attr, original)
+    _monitors(case["key"], None, rec)
+    rec["status"] = "violated" if rec["violations"] else "held"
+    rec["sample"] = {"history": ["export", f"re-bind {attr}", "export"], "target": what}
+    return rec
+
+
 def run_case(case: dict[str, Any], tier: str, seed: int) -> dict[str, Any]:
     import jax
     from jax2onnx.user_interface import to_onnx
@@ -480,6 +550,8 @@ def run_case(case: dict[str, Any], tier: str, seed: int) -> dict[str, Any]:
     _warm()
     rec: dict[str, Any] = {"evals": 0, "nontrivial": [], "violations": [], "obs": {}}
     P = _programs()
+    if case.get("rebind"):
+        return _rebind_case(case, rec)
     plan = dict(case["plan"])
     counter = {"n": 0, "raised": 0}
     # alternate the process-wide x64 state between calls (restored before the monitors compare)
